@@ -87,7 +87,7 @@ def run(chk):
     try:
         from vcgen.rules import RuleRunner
         shapes = lambda choice, sig: [{"square": True}, {"square": False}] if choice[0][1] == "LinearOperator" else [{}]  # noqa
-        spec = dict(dtypes=[np.float64, np.complex128], anns=[()], hyps=full_rank_hyps, arities=[1], extra=shapes)
+        spec = dict(dtypes=[np.float64, np.complex128], anns=[()], hyps=full_rank_hyps, arities=[1, 2, 3], extra=shapes)   # no pinv rule takes a variadic kind today; one that is added later inherits the contract at every arity
         RuleRunner(chk, "C16", "pinv", contract, contracts, spec).run()
     finally:
         absop.GHOSTS["IterativeOperatorWInfo"] = old_ghost
